@@ -177,7 +177,7 @@ class Loops:
                 r = callee_ref(n)
                 decl = ex.tu.decls.get(r.get('id'))
                 self_args(n, decl, n['inner'][1:])
-                if r.get('name') in ('memcpy', 'memmove', 'copy', 'fill', 'reverse', 'swap', 'advance', 'sort'):
+                if r.get('name') in ('memcpy', 'memmove', 'memset', 'copy', 'fill', 'reverse', 'swap', 'advance', 'sort'):
                     for a in n['inner'][1:]:
                         add(a, True)
             for c in n.get('inner', ()):
